@@ -651,6 +651,12 @@ static std::string whereOf(const std::string& err, size_t from) {
         size_t par = o.find('('); if (par != std::string::npos) o = o.substr(0, par);
         while (!o.empty() && o.back() == ' ') o.pop_back();
         size_t sp = o.rfind(' '); if (sp != std::string::npos) o = o.substr(sp + 1);
+        // trivial accessors say nothing about the cause: name their caller instead
+        static const char* ACC[] = { "geos::geom::CoordinateSequence::getAt", "geos::geom::CoordinateSequence::front", "geos::geom::CoordinateSequence::back",
+            "geos::geom::CoordinateSequence::getX", "geos::geom::CoordinateSequence::getY", "geos::geom::CoordinateSequence::getOrdinate", "geos::geom::SimpleCurve::getCoordinateN",
+            "geos::geom::CoordinateSequence::operator[]", "geos::geom::Coordinate::operator=", "geos::geom::CoordinateXY::operator=", "geos::geom::Coordinate::Coordinate", "geos::geom::CoordinateXY::CoordinateXY" };
+        bool acc = false; for (auto a : ACC) if (o == a) acc = true;
+        if (acc) continue;
         return o;
     }
     return "";
@@ -668,7 +674,7 @@ static std::string classifyStderr(const std::string& err) {
         // slug: drop numbers / addresses / quoted type names
         for (size_t a; (a = m.find("0x")) != std::string::npos;) { size_t b = a + 2; while (b < m.size() && isxdigit((unsigned char) m[b])) b++; m.erase(a, b - a); }
         bool inq = false; for (size_t i = 0; i < m.size() && o.size() < 48; i++) { char ch = m[i]; if (ch == '\'') { inq = !inq; continue; } if (inq) continue;
-            if (isdigit((unsigned char) ch) || ch == '-' ) continue; if (ch == 'x' && i && m[i - 1] == '0') continue; if (ch == ' ' || ch == ',' || ch == ':') { if (!o.empty() && o.back() != '_') o.push_back('_'); continue; } o.push_back(ch); }
+            if (isdigit((unsigned char) ch) || ch == '-' || ch == '+' || ch == '*') continue; if (ch == 'x' && i && m[i - 1] == '0') continue; if (ch == ' ' || ch == ',' || ch == ':') { if (!o.empty() && o.back() != '_') o.push_back('_'); continue; } o.push_back(ch); }
         while (!o.empty() && o.back() == '_') o.pop_back();
         return "crash:ubsan-" + o + "@" + whereOf(err, q); }
     if (err.find("LeakSanitizer has encountered a fatal error") != std::string::npos) return "lsan-unavailable";
